@@ -599,7 +599,8 @@ func init() {
 			{name: "enumerated", quick: 4, thorough: 120, enumKinds: 6, enumPos: 1, enumBases: 120}},
 		rule:    "each evaluation is one simulated transfer stopped at a tape-chosen message after the handshake by one of: user Ctrl-C plus prompt keys through the real promptui prompt (keep / delete), the public StopTransferringFiles(bool), SIGINT or SIGTERM delivered to the server main; non-trivial = the stop fired and termination bound, reports, delete/keep semantics and bystander files were all evaluated; distinct = distinct (configuration + stop kind, schedule-trace hash, tape hash)"})
 	reg(&propDef{id: "C16", level: "exploration", crashIsViol: true,
-		batches: []batch{{name: "noise", quick: 4000, thorough: 150000}},
+		batches: []batch{{name: "noise", quick: 4000, thorough: 150000},
+			{name: "relaywin", params: map[string]string{"relaywin": "1"}, quick: 1200, thorough: 40000}},
 		rule:    "each evaluation feeds a real trzszTransfer (tmux junk-tolerant reader or Windows-console reader) 1-4 protocol lines rendered with tape-chosen noise, in tape-chosen segments (including 1-byte segments) with pauses, and reads them back with the real recvCheck under seeded schedules; tmux grammar: CR LF at any position (inside the marker, inside a status string, right before the terminator), unrelated text in front of the marker, status control strings of the captured shape anywhere; Windows grammar: CSI sequences anywhere (also containing '!'), padding (space, tab, BS, CR), CR LF, wrap with re-print, home pre-print, and a bare cursor move before an equal character (must be kept); optionally one Ctrl-C anywhere; oracle: returned payload == original payload for every line, Ctrl-C interrupts; non-trivial = all lines compared; distinct = distinct (reader + noise kinds, schedule-trace hash, tape hash)"})
 	reg(&propDef{id: "C17", level: "exploration", crashIsViol: true,
 		batches: []batch{{name: "tunnel", quick: 2400, thorough: 90000}},
@@ -615,7 +616,8 @@ func init() {
 		batches: []batch{{name: "buffer", quick: 3000, thorough: 120000}},
 		rule:    "each evaluation drives a real trzszBuffer with a producer task (addBuffer in a chosen segmentation, optional 1 ms pauses on the fake clock) and a consumer task issuing a tape-chosen sequence of strict line reads, junk-tolerant line reads and sized binary reads (or clean Windows-framed reads), under seeded schedules; streams of up to 12 bytes over {a,b,#,:,9,LF,CR,Ctrl-C} are run under ALL 2^(n-1) segmentations inside the same evaluation, longer streams (20-620 bytes, structured or random) under four random segmentations of increasing density; oracle: a 40-line reference parser applied to the concatenated stream (same values, same order, nothing lost/duplicated/merged, Ctrl-C interrupts) and promptness (after a pause during which the world went quiet, every read whose answer was complete has returned); non-trivial = at least one complete answer compared; distinct = distinct (class, schedule-trace hash, tape hash)"})
 	reg(&propDef{id: "C20", level: "exploration", crashIsViol: true,
-		batches: []batch{{name: "progress", quick: 4000, thorough: 150000}},
+		batches: []batch{{name: "progress", quick: 4000, thorough: 150000},
+			{name: "system", params: map[string]string{"system": "1"}, quick: 600, thorough: 20000}},
 		rule:    "each evaluation drives a real textProgressBar with two concurrent tasks under seeded schedules on the fake clock: a stepper (1-3 files; names of every width class: ASCII, CJK, emoji, combining marks, control characters, RTL, empty, 300 columns long; sizes 0, small, GiB range, 2^62, negative; step sequences with repeats, regressions, overshoot and 2^62; clock gaps 0, 1 ms, 199/200/201 ms, 3 s, 5 h) and a resizer/pauser (setTerminalColumns to 1-500, setPause on/off); initial widths 1-500, optional tmux pane width, optional tmux %output framing, optional colour pair; oracle on every write of the bar: display width (control sequences removed, tmux framing undone, runewidth's cluster-aware measure) <= largest width in force since the previous line, for widths >= 5; every percentage within 0..100 and non-decreasing within a file; a panic anywhere crashes the worker and is attributed to the run; non-trivial = at least one line measured; distinct = distinct (width class + modes, schedule-trace hash, tape hash)"})
 	reg(&propDef{id: "C04", level: "exploration", crashIsViol: true,
 		batches: []batch{{name: "builtin", params: map[string]string{"mode": "builtin"}, quick: 1500, thorough: 60000},
